@@ -51,8 +51,16 @@ def _make_tensor(kind: str):
     if kind == "np":
         return ir.Tensor(np.array([1.5], dtype=np.float32))
     if kind == "lazy":
-        return ir.LazyTensor(lambda: ir.Tensor(np.array([[1, 2, 3]], dtype=np.int64)), dtype=ir.DataType.INT64,
-                             shape=ir.Shape([1, 3]))
+        # the wrapped tensor is proto-backed and has a name, a doc string and metadata OF ITS OWN (a weight borrowed
+        # from another loaded model): what is written is the wrapper - its name follows the value's
+        def inner():
+            tp = onnx.numpy_helper.from_array(np.array([[1, 2, 3]], dtype=np.int64), name="inner_name")
+            tp.doc_string = "inner doc"
+            e = tp.metadata_props.add()
+            e.key, e.value = "inner.key", "inner value"
+            return ir.serde.TensorProtoTensor(tp)
+
+        return ir.LazyTensor(inner, dtype=ir.DataType.INT64, shape=ir.Shape([1, 3]))
     if kind == "packed":
         return ir.PackedTensor(np.array([0x21, 0x03], dtype=np.uint8), ir.DataType.INT4, shape=[3])
     if kind == "proto":
